@@ -155,6 +155,7 @@ type hworld struct {
 	remote       map[string]int // application callback counters
 	extraSecrets [][32]byte
 	extraIdx     []int
+	dbase        db.Database            // a bare database for the database-level pairs
 	sess         hccrypto.Cryptographer // a bare session for the session-level pair
 	sessIn       []byte
 }
@@ -257,7 +258,18 @@ type hpair struct {
 	after func(w *hworld) string
 }
 
+// hpairs lists every pair twice: as written and with the two sides swapped, so that "one preemption" covers a
+// preemption of either side (thread 0 starts).
 func hpairs() []hpair {
+	var out []hpair
+	for _, p := range hpairsBase() {
+		out = append(out, p)
+		out = append(out, hpair{name: p.name + " [sides swapped]", props: p.props, prep: p.prep, a: p.b, b: p.a, after: p.after})
+	}
+	return out
+}
+
+func hpairsBase() []hpair {
 	state := func(w *hworld) string {
 		return fmt.Sprintf("on=%v brightness=%v hue=%v callbacks=%v", w.sw.Switch.On.GetValue(), w.bulb.Lightbulb.Brightness.GetValue(), w.bulb.Lightbulb.Hue.GetValue(), fmt.Sprint(w.remote))
 	}
@@ -358,7 +370,12 @@ func hpairs() []hpair {
 			func(w *hworld) string {
 				return w.do(1, "GET", "/characteristics?id="+w.id("brightness")+","+w.id("on"), "")
 			}, state},
-		{"an administrator removes a pairing while the removed controller verifies; afterwards it must be refused", "C01 C03 C18", nil,
+		{"an administrator removes a pairing while the removed controller verifies; afterwards it must be refused", "C01 C03 C18",
+			func(w *hworld) {
+				// the pairing was added while the accessory was running (through /pairings), not before its start
+				body := refctl.TLVEncode(refctl.T(refctl.TagState, []byte{1}), refctl.T(refctl.TagMethod, []byte{3}), refctl.T(refctl.TagIdentifier, []byte(hidL.ID)), refctl.T(refctl.TagPublicKey, hidL.Pub), refctl.T(refctl.TagPermission, []byte{1}))
+				w.post(0, "/pairings", body)
+			},
 			func(w *hworld) string {
 				body := refctl.TLVEncode(refctl.T(refctl.TagState, []byte{1}), refctl.T(refctl.TagMethod, []byte{4}), refctl.T(refctl.TagIdentifier, []byte(hidL.ID)))
 				st, _ := w.post(0, "/pairings", body)
@@ -386,6 +403,29 @@ func hpairs() []hpair {
 					out = append(out, fmt.Sprintf("c%d: %s", c, w.events(c)))
 				}
 				return strings.Join(out, " ; ")
+			}},
+		{"an entity is deleted while it is looked up (one database object, as the handlers of two connections use it); afterwards it is gone", "C18 C01 C03",
+			func(w *hworld) {
+				w.dbase, _ = db.NewDatabase(filepath.Join(w.dir, "db2"))
+				w.dbase.SaveEntity(db.NewEntity("ctl", pat(32, 1), nil))
+			},
+			func(w *hworld) string { w.dbase.DeleteEntity(db.NewEntity("ctl", nil, nil)); return "deleted" },
+			func(w *hworld) string { w.dbase.EntityWithName("ctl"); return "-" },
+			func(w *hworld) string {
+				_, err := w.dbase.EntityWithName("ctl")
+				es, _ := w.dbase.Entities()
+				return fmt.Sprintf("lookup afterwards fails: %v, %d entities listed", err != nil, len(es))
+			}},
+		{"an entity is replaced while it is looked up; afterwards the new key is returned", "C18 C02 C04",
+			func(w *hworld) {
+				w.dbase, _ = db.NewDatabase(filepath.Join(w.dir, "db2"))
+				w.dbase.SaveEntity(db.NewEntity("ctl", pat(32, 1), nil))
+			},
+			func(w *hworld) string { return fmt.Sprint(w.dbase.SaveEntity(db.NewEntity("ctl", pat(32, 2), nil))) },
+			func(w *hworld) string { w.dbase.EntityWithName("ctl"); return "-" },
+			func(w *hworld) string {
+				e, err := w.dbase.EntityWithName("ctl")
+				return fmt.Sprintf("lookup afterwards: %v %s", err, h(e.PublicKey))
 			}},
 		{"a new, unverified connection asks for the attribute database while a verified one is served", "C01 C03", nil,
 			func(w *hworld) string { return h([]byte(w.do(0, "GET", "/accessories", ""))) },
@@ -466,7 +506,7 @@ func exploreHPair(scratch string, hp hpair, bound int, rep *Report, deadline tim
 			}
 			t := S.Current()
 			counts[t]++
-			if counts[t] > pointCap {
+			if counts[t] > capFor(bound) {
 				capped = true
 				return
 			}
@@ -562,7 +602,7 @@ func exploreHPairPrefix(scratch string, hp hpair, cas Case, rep *Report, done *b
 		}
 		t := S.Current()
 		counts[t]++
-		if counts[t] > pointCap {
+		if counts[t] > capFor(cas.Bound) {
 			return
 		}
 		S.Point(nil)
